@@ -172,7 +172,9 @@ func (c *Case) c01Docs() []*xdoc.Doc {
 		n, nr = 5, 12
 	}
 	docs := append([]*xdoc.Doc(nil), shapeDocs(n)...)
-	return append(docs, c.docPool("rand", nr, func(g *xgen.G) *xdoc.Doc { return g.Tree(xgen.DefaultTree()) })...)
+	docs = append(docs, c.docPool("rand", nr, func(g *xgen.G) *xdoc.Doc { return g.Tree(xgen.DefaultTree()) })...)
+	// wide documents (fan-out 11-12 of same-named siblings on several levels): sibling positions with two digits
+	return append(docs, c.docPool("digit", 2, func(g *xgen.G) *xdoc.Doc { return g.DigitTree() })...)
 }
 
 // recordShape counts the iterator types of the compiled query (coverage evidence).
